@@ -38,10 +38,22 @@ case "$ID" in
     exec "$HERE/bin/check-sched" "$@"
     ;;
 esac
-if ! go build -tags verif -o "$HERE/bin/check" ./cmd/check 2>"$HERE/build/build.err"; then
-  echo "BUILD FAILED (harness against /repo working tree):"
-  cat "$HERE/build/build.err"
-  exit 2
+# Sequential checks: build with the deterministic LIFO pool shim (sync.Pool in the three pool files is
+# redirected through an overlay) so that object reuse through the process-wide pools is immediate and
+# reproducible; if the sources cannot be rewritten, fall back to the plain build (real sync.Pool).
+POOLS_OK=0
+if go build -o "$HERE/bin/instrument" ./cmd/instrument 2>"$HERE/build/build.err" && \
+   (cd "$REPO" && "$HERE/bin/instrument" "$REPO" "$HERE/build/pools" "$HERE/harness/vsched_src/vsched.go" --pools-only) >"$HERE/build/pools.out" 2>&1 && \
+   go build -tags "verif pools" -overlay "$HERE/build/pools/overlay.json" -o "$HERE/bin/check" ./cmd/check 2>"$HERE/build/build.err"; then
+  POOLS_OK=1
+fi
+if [ "$POOLS_OK" != 1 ]; then
+  echo "note: pool shim not applied ($(tail -1 "$HERE/build/pools.out" 2>/dev/null)); plain build"
+  if ! go build -tags verif -o "$HERE/bin/check" ./cmd/check 2>"$HERE/build/build.err"; then
+    echo "BUILD FAILED (harness against /repo working tree):"
+    cat "$HERE/build/build.err"
+    exit 2
+  fi
 fi
 cd "$HERE"
 exec "$HERE/bin/check" "$@"
